@@ -1001,3 +1001,38 @@ func c12ChainMacroClash(res *Result) {
 		}
 	}
 }
+
+// c04PairOrder: the pairs of with / include … with and the defaults of a macro are evaluated in the
+// order they are written: the error reported and the order of calls are the same on every execution
+func c04PairOrder(res *Result) {
+	files := map[string]string{"/inc.tpl": "i"}
+	for _, src := range []string{
+		`{% with a=1|floatformat:2000 b="x"|rjust:20000 c=1/zero %}x{% endwith %}`,
+		`{% include "/inc.tpl" with a=1|floatformat:2000 b="x"|rjust:20000 c=1/zero %}`,
+		`{% macro m(a=1|floatformat:2000, b="x"|rjust:20000, c=1/zero) %}{% endmacro %}{{ m() }}`,
+		`{% with a=f("a") b=f("b") c=f("c") d=f("d") %}{{ a }}{% endwith %}|{% include "/inc.tpl" with a=f("e") b=f("f") c=f("g") %}|{% macro m(a=f("h"), b=f("i"), c=f("j")) %}{% endmacro %}{{ m() }}`,
+	} {
+		set := pongo2.NewSet("c04-order", &memLoader{files: files})
+		tpl := mustCompile(set, src)
+		if tpl == nil {
+			continue
+		}
+		seen := map[string]bool{}
+		first := ""
+		for i := 0; i < 40; i++ {
+			res.Cases++
+			calls := ""
+			r := execOnce(tpl, pongo2.Context{"zero": 0, "f": func(s string) string { calls += s; return s }})
+			k := r.String() + " calls=" + calls
+			if i == 0 {
+				first = k
+			}
+			seen[k] = true
+		}
+		if len(seen) != 1 {
+			oracleFail(res, "history", "c04-pair-evaluation-order", src, fmt.Sprintf("%d different outcomes over 40 executions with equal contexts", len(seen)), first)
+		} else if strings.Contains(src, `f("a")`) && !strings.HasSuffix(first, "calls=abcdefghij") {
+			oracleFail(res, "history", "c04-pair-evaluation-order", src, first, "the calls in the order they are written: abcdefghij")
+		}
+	}
+}
